@@ -603,6 +603,11 @@ class state_space_model_dense(ssm_impl_api.StateSpaceModel):
         # Construct the SDE matrices
         num_derivatives = len(tcoeffs_mean) - 1
         (d,) = single_flat.shape
+        if np.shape(bottom_block) != (d, (num_derivatives + 1) * d):
+            msg = "The drift's output does not match the shape of the state."
+            msg += f" Expected: {(d,)}."
+            msg += f" Received: {np.shape(bottom_block)[:-1]}."
+            raise ValueError(msg)
         eye_d = np.eye(d)
         a = linalg.diagonal_matrix(np.ones((num_derivatives,)), k=1)
         A = np.kron(a, eye_d)
